@@ -26,6 +26,21 @@ fn main() {
     if args.len() < 3 {
         usage();
     }
+    if args[1] == "replay" && std::env::var("CCMC_REPLAY_IN_PROCESS").is_err() {
+        // replays run in a child process too, so that an aborting replay is reported as such
+        let st = std::process::Command::new(std::env::current_exe().unwrap()).args(&args[1..]).env("CCMC_REPLAY_IN_PROCESS", "1").status();
+        match st {
+            Ok(s) if s.code().is_some() => std::process::exit(s.code().unwrap()),
+            Ok(s) => {
+                println!("VIOLATION reproduced: the replay killed the process ({s})");
+                std::process::exit(1)
+            }
+            Err(e) => {
+                eprintln!("cannot spawn the replay process: {e}");
+                std::process::exit(4)
+            }
+        }
+    }
     match args[1].as_str() {
         "check" => {
             let prop = args[2].clone();
@@ -60,6 +75,13 @@ fn main() {
                     println!("  VIOL {} [{}] {}\n    {}", v.property, v.signature, v.what, v.replay["actions"]);
                 }
             }
+        }
+        "hostile-child" => {
+            let tier = if args[2] == "thorough" { Tier::Thorough } else { Tier::Quick };
+            let start: usize = args[3].parse().unwrap_or(0);
+            let end: usize = args[4].parse().unwrap_or(0);
+            let secs: u64 = args[5].parse().unwrap_or(50);
+            engines::hostile::child_main(tier, start, end, secs);
         }
         "debug-enabled" => {
             let s = std::fs::read_to_string(&args[2]).expect("read");
@@ -123,6 +145,7 @@ fn run_check(prop: &str, tier: Tier) -> i32 {
             check.parts.extend(engines::mtu::run(tier, started));
             check.parts.extend(engines::pair::run("C07", tier, std::time::Instant::now()));
             check.parts.extend(engines::cluster::run_traffic("C07", tier));
+            check.parts.extend(engines::membership::run("C07", tier, std::time::Instant::now()));
         }
         "C18" => {
             check.parts.extend(engines::catchup::run(tier, started));
